@@ -50,7 +50,7 @@ CHECKS = {
             "DESIGN.md §5 C12"),
     "C10": ("busmc", "model_checking",
             "explicit-state BFS (real broker as transition function), lock-step against the plain filter semantics restated in refbus, plus ordering monitors",
-            "E-A: for each of 8 prepared bus states, all filter sets reachable by <= 4 (thorough 5) add/remove/clear operations over the 13 filters expressible with object UUIDs {U1,U2} and service UUIDs {S1,S2}, each followed by Start with the three scopes, stop, restart, destroy and foreign access, with an optional second started listener on the same connection; the cached flags are compared with their definition in every state. E-B: three listeners on two connections, filter add/remove, start/stop/destroy, two producers creating / destroying objects and services and disconnecting, BFS to depth 6 (8). Oracles: tagged current events exactly the matching entities then one marker; new events exactly once per connection; ordering monitors (creation before destruction, service events inside the object lifetime, nothing tagged after the marker).",
+            "E-A: for each of 8 prepared bus states, all filter sets reachable by <= 4 (thorough 5) add/remove/clear operations over the 12 filters expressible with object UUIDs {U1,U2} and service UUIDs {S1,S2}, each followed by Start with the three scopes, stop, restart, destroy and foreign access, with an optional second started listener on the same connection; the cached flags are compared with their definition in every state. E-B: three listeners on two connections, filter add/remove, start/stop/destroy, two producers creating / destroying objects and services and disconnecting, BFS to depth 6 (8). Oracles: tagged current events exactly the matching entities then one marker; new events exactly once per connection; ordering monitors (creation before destruction, service events inside the object lifetime, nothing tagged after the marker).",
             "as C02",
             "DESIGN.md §5 C10"),
     "C06": ("taskmc", "exploration",
